@@ -442,6 +442,9 @@ class Gen:
         if use_udf:
             op['udf_symlink_path'] = join(self.pick_dir(model, 'udf'), self.udf_name())
             op['udf_target'] = self.symlink_target() if not use_rr else op['rr_path']
+            if not use_rr and r.random() < 0.1:
+                # a target whose path components need more than one sector (the data of a UDF symlink)
+                op['udf_target'] = '/'.join(chr(97 + k % 26) * r.choice([200, 230, 245, 250]) for k in range(r.choice([9, 10, 12, 17])))
         if cfg.joliet and r.random() < 0.5 and (use_rr or 'symlink_path' not in op or True):
             op['joliet_path'] = join(self.pick_dir(model, 'joliet'), self.uni_name())
         return op
